@@ -192,13 +192,13 @@ func c15Loop(c *Ctx, r *Report, rr, step *ssa.Function) {
 			r.fail("R15.3", id, what, pos, detail, sig)
 		}
 	}
-	var call *ssa.Call
+	var calls []*ssa.Call
 	var write *ssa.Call
 	for _, b := range rr.Blocks {
 		for _, in := range b.Instrs {
 			if cl, ok := in.(*ssa.Call); ok {
 				if cl.Common().StaticCallee() == step {
-					call = cl
+					calls = append(calls, cl)
 				}
 				if sc := cl.Common().StaticCallee(); sc != nil && sc.String() == "(*bytes.Buffer).Write" {
 					write = cl
@@ -206,10 +206,11 @@ func c15Loop(c *Ctx, r *Report, rr, step *ssa.Function) {
 			}
 		}
 	}
-	if call == nil {
+	if len(calls) == 0 {
 		rep(false, "ReceiveRead handles at most one request per read: it does not re-invoke a per-packet step in a loop", "", "no-loop", c.pos(rr.Pos()))
 		return
 	}
+	call := calls[0]
 	// appended bytes are exactly the received parameter
 	if write != nil {
 		okW := len(write.Common().Args) == 2 && write.Common().Args[1] == rr.Params[2] && write.Block() == rr.Blocks[0]
@@ -217,57 +218,95 @@ func c15Loop(c *Ctx, r *Report, rr, step *ssa.Function) {
 	} else {
 		rep(false, "ReceiveRead does not append the received bytes to its buffer", "", "no-buffer-write", c.pos(rr.Pos()))
 	}
-	// the call lies on a cycle
+	// some step call lies on a cycle
 	inCycle := false
-	seen := map[*ssa.BasicBlock]bool{}
-	var dfs func(b *ssa.BasicBlock)
-	dfs = func(b *ssa.BasicBlock) {
-		for _, s := range b.Succs {
-			if s == call.Block() {
-				inCycle = true
-			}
-			if !seen[s] {
-				seen[s] = true
-				dfs(s)
-			}
+	for _, cl := range calls {
+		if blockReaches(cl.Block(), cl.Block()) {
+			inCycle = true
 		}
 	}
-	dfs(call.Block())
 	rep(inCycle, "the per-packet step is re-invoked in a loop, so several complete requests in the buffer are all answered", "", "no-loop", c.pos(call.Pos()))
-	// loop exits: only when the step reports nothing handled, or asks to close
-	var handled, closeC ssa.Value
-	if refs := call.Referrers(); refs != nil {
-		for _, rf := range *refs {
-			if e, ok := rf.(*ssa.Extract); ok {
-				switch e.Index {
-				case 1:
-					handled = e
-				case 2:
-					closeC = e
+	// "the result of the most recent step": the extract of the single call, or (for a loop with a
+	// priming call before it and a second call at the end of the body) the phi merging the
+	// extracts of all step calls
+	stepResult := func(k int) ssa.Value {
+		var exs []ssa.Value
+		for _, cl := range calls {
+			if refs := cl.Referrers(); refs != nil {
+				for _, rf := range *refs {
+					if e, ok := rf.(*ssa.Extract); ok && e.Index == k {
+						exs = append(exs, e)
+					}
 				}
 			}
 		}
+		if len(calls) == 1 {
+			if len(exs) == 1 {
+				return exs[0]
+			}
+			return nil
+		}
+		for _, b := range rr.Blocks {
+			for _, in := range b.Instrs {
+				ph, ok := in.(*ssa.Phi)
+				if !ok {
+					break
+				}
+				if len(ph.Edges) != len(exs) {
+					continue
+				}
+				all := true
+				for _, e := range ph.Edges {
+					hit := false
+					for _, x := range exs {
+						if e == x {
+							hit = true
+						}
+					}
+					if !hit {
+						all = false
+					}
+				}
+				if all {
+					return ph
+				}
+			}
+		}
+		return nil
 	}
+	resp0, handled, closeC := stepResult(0), stepResult(1), stepResult(2)
+	afterStep := func(b *ssa.BasicBlock) bool {
+		for _, cl := range calls {
+			if cl.Block().Dominates(b) {
+				return true
+			}
+		}
+		return false
+	}
+	condOf := func(p *ssa.BasicBlock) (ssa.Value, bool, bool) {
+		iff, ok := p.Instrs[len(p.Instrs)-1].(*ssa.If)
+		if !ok {
+			return nil, false, false
+		}
+		cond, neg := iff.Cond, false
+		if u, ok := cond.(*ssa.UnOp); ok && u.Op == token.NOT {
+			cond, neg = u.X, true
+		}
+		return cond, neg, true
+	}
+	// loop exits: only when the step reports nothing handled, or asks to close
 	okExit := true
 	for _, b := range rr.Blocks {
-		ret, ok := b.Instrs[len(b.Instrs)-1].(*ssa.Return)
-		if !ok || !call.Block().Dominates(b) {
+		if _, ok := b.Instrs[len(b.Instrs)-1].(*ssa.Return); !ok || !afterStep(b) {
 			continue
 		}
-		_ = ret
-		// the return block must be the target of a branch on handled (false edge) or closeC (true edge)
 		okThis := false
 		for _, p := range b.Preds {
-			if iff, ok := p.Instrs[len(p.Instrs)-1].(*ssa.If); ok {
-				cond := iff.Cond
-				neg := false
-				if u, ok := cond.(*ssa.UnOp); ok && u.Op == token.NOT {
-					cond, neg = u.X, true
-				}
-				if cond == handled && ((p.Succs[1] == b) != neg) {
+			if cond, neg, ok := condOf(p); ok {
+				if cond == handled && handled != nil && ((p.Succs[1] == b) != neg) {
 					okThis = true
 				}
-				if cond == closeC && p.Succs[0] == b {
+				if cond == closeC && closeC != nil && p.Succs[0] == b {
 					okThis = true
 				}
 			}
@@ -292,11 +331,9 @@ func c15Loop(c *Ctx, r *Report, rr, step *ssa.Function) {
 				continue
 			}
 			first, second := cl.Common().Args[0], cl.Common().Args[1]
-			_, firstIsPhi := first.(*ssa.Phi)
-			ex, secondIsExtract := second.(*ssa.Extract)
-			if firstIsPhi && secondIsExtract && ex.Tuple == call && ex.Index == 0 {
+			ph, firstIsPhi := first.(*ssa.Phi)
+			if firstIsPhi && second == resp0 && resp0 != nil {
 				// the phi is loop-carried with this append's result
-				ph := first.(*ssa.Phi)
 				for _, e := range ph.Edges {
 					if e == cl {
 						okOrder = true
@@ -313,7 +350,7 @@ func c15Loop(c *Ctx, r *Report, rr, step *ssa.Function) {
 	if okOrder {
 		for _, b := range rr.Blocks {
 			ret, ok := b.Instrs[len(b.Instrs)-1].(*ssa.Return)
-			if !ok || !call.Block().Dominates(b) || len(ret.Results) == 0 {
+			if !ok || !afterStep(b) || len(ret.Results) == 0 {
 				continue
 			}
 			v := ret.Results[0]
@@ -322,17 +359,11 @@ func c15Loop(c *Ctx, r *Report, rr, step *ssa.Function) {
 			case v == ssa.Value(accAppend):
 				rep(true, "returns the accumulated replies including the one just produced", "", "", pos)
 			case v == ssa.Value(accPhi):
-				// allowed only where this iteration produced nothing: the branch on 'handled' (false edge)
+				// allowed only where the most recent step produced nothing: the branch on 'handled' (false edge)
 				viaNotHandled := false
 				for _, p := range b.Preds {
-					if iff, ok := p.Instrs[len(p.Instrs)-1].(*ssa.If); ok {
-						cond, neg := iff.Cond, false
-						if u, ok := cond.(*ssa.UnOp); ok && u.Op == token.NOT {
-							cond, neg = u.X, true
-						}
-						if cond == handled && ((p.Succs[1] == b) != neg) {
-							viaNotHandled = true
-						}
+					if cond, neg, ok := condOf(p); ok && cond == handled && ((p.Succs[1] == b) != neg) {
+						viaNotHandled = true
 					}
 				}
 				rep(viaNotHandled, "returns the replies accumulated so far when the step had nothing to handle", "", "drops-last-reply", pos)
